@@ -129,17 +129,20 @@ def parse_assumptions(raw):
 
 def count_obligations(pid):
     """Theorems/Lemmas in the Props file and in the proof files it (transitively) requires from BL."""
-    seen, todo, n, files = set(), ['Props/Properties_%s.v' % pid], 0, []
+    seen, todo, n, files, done = set(), ['Props/Properties_%s.v' % pid], 0, [], 0
     while todo:
         f = todo.pop()
         if f in seen or not os.path.exists(os.path.join(COQ, f)): continue
         seen.add(f); files.append(f)
         s = open(os.path.join(COQ, f)).read()
-        n += len(re.findall(r'^\s*(?:Local\s+)?(?:Theorem|Lemma|Corollary|Example|Fact|Remark)\s', s, re.M))
+        k = len(re.findall(r'^\s*(?:Local\s+)?(?:Theorem|Lemma|Corollary|Example|Fact|Remark)\s', s, re.M))
+        n += k
+        vo = os.path.join(COQ, f + 'o')
+        if os.path.exists(vo) and os.path.getmtime(vo) >= os.path.getmtime(os.path.join(COQ, f)): done += k
         for m in re.finditer(r'From BL Require (?:Import|Export)((?:\s+[A-Za-z_][\w]*(?:\.[A-Za-z_]\w*)*)+)\s*\.', s):
             for mod in m.group(1).split():
                 todo.append(mod.replace('.', '/') + '.v')
-    return n, sorted(files)
+    return n, done, sorted(files)
 
 FORBIDDEN = r'\b(Admitted|admit|Axiom|Axioms|Parameter|Parameters|Conjecture|Conjectures|Abort All)\b|Unset Guard|bypass_check|Admit Obligations|type-in-type|impredicative-set'
 def grep_forbidden():
